@@ -348,7 +348,12 @@ func (i *Info) CanReadMessagesUsingIndex() bool {
 	// If there are chunk indexes, we can read messages using the index.
 	// if there are none, but the statistics indicate that there are messages, then we know
 	// that a read using the indexed message iterator will still yield the correct set of messages.
-	return len(i.ChunkIndexes) > 0 || (i.Statistics != nil && i.Statistics.MessageCount == 0)
+	if len(i.ChunkIndexes) > 0 {
+		// the index-based reader resolves every message's channel from the channel records repeated in the
+		// summary, and skips messages whose channel it does not know.
+		return len(i.Channels) > 0
+	}
+	return i.Statistics != nil && i.Statistics.MessageCount == 0
 }
 
 type MessageIndexEntry struct {
